@@ -6,5 +6,4 @@ cd "$(dirname "$0")"
 export CARGO_NET_OFFLINE=true
 mkdir -p .work/logs evidence
 (cd harness && cargo test --offline 2>&1 | tail -3)
-python3 tools/gen_manifest.py >/dev/null
 echo setup ok
